@@ -255,7 +255,22 @@ func TestVerifABEOddValues(t *testing.T) {
 	for i := range long {
 		long[i] = 'v'
 	}
+	// leaf values on both sides of 256 octets (one-octet length fields)
+	lv := func(n int) string {
+		b := make([]byte, n)
+		for i := range b {
+			b[i] = byte('a' + i%26)
+		}
+		return string(b)
+	}
+	for _, n := range []int{255, 256, 257, 600} {
+		pols = append(pols, struct {
+			text string
+			node *abepol.Node
+		}{"w:" + lv(n) + " or b:7", or(leaf("w", lv(n)), leaf("b", "7"))})
+	}
 	sets := []abepol.Assign{
+		{"w": lv(255)}, {"w": lv(256)}, {"w": lv(257)}, {"w": lv(600), "a": "1"}, {"b": "7"},
 		{"a": ""}, {"a": "", "b": "1"}, {"a": "", "b": ""}, {"a": " "}, {"a": "1 "}, {"a": " 1"}, {"a": "１"}, {"a": string(long)},
 		{"a": "1", "b": ""}, {"": "1"}, {"a": "1"}, {"a": "2", "b": "1"}, {"tier_2": ""}, {"tier_2": "free_plan"}, {},
 	}
